@@ -96,3 +96,5 @@ _p("C20", assumptions=COMMON_KANI_ASSUMPTIONS, not_covered=[])
 _p("C12", assumptions=COMMON_KANI_ASSUMPTIONS, not_covered=[])
 _p("C02", assumptions=COMMON_KANI_ASSUMPTIONS, not_covered=[])
 _p("C08", assumptions=COMMON_KANI_ASSUMPTIONS, not_covered=[])
+_p("C16", level="other", assumptions=COMMON_KANI_ASSUMPTIONS, not_covered=[],
+   explanation="every deciding obligation is a bounded stand-in: one complete Kani proof per vector length (all f32 bit patterns symbolic) for the stated list of lengths, and distance-function lemmas on one or two packed blocks; the property quantifies over all lengths, which no loop-free harness covers")
